@@ -66,38 +66,111 @@ pub fn standalone(hb_timeout_s: u64) -> (SharedCoordinator, Routes) {
     (shared, routes)
 }
 
-/// The body of the coordinator health loop in varpulis-cli/src/main.rs::run_coordinator (a binary, not
-/// linkable), transcribed: same public methods in the same order, under the same single write lock.
-pub async fn health_tick(coord: &SharedCoordinator) -> Vec<String> {
-    sync_clock();
-    let mut c = coord.write().await;
-    c.update_raft_role();
-    c.sync_from_raft();
-    if !c.ha_role.is_writer() {
-        return vec![];
-    }
-    let result = c.health_sweep();
-    let failed: Vec<WorkerId> = result.workers_marked_unhealthy.clone();
-    if !failed.is_empty() {
-        if let Some(handle) = c.raft_handle.as_ref().map(|h| h.raft.clone()) {
-            for wid in &failed {
-                let cmd = varpulis_cluster::raft::ClusterCommand::WorkerStatusChanged { id: wid.0.clone(), status: "unhealthy".to_string() };
-                let _ = handle.client_write(cmd).await;
+// The body of the coordinator health loop in varpulis-cli/src/main.rs::run_coordinator (a binary, not
+// linkable) is extracted from /repo's current source by build.rs into `health_loop_iteration`, with
+// observation callbacks (`hl_*` below) spliced in at textual anchors. So the loop that runs here is
+// the shipped loop, not a transcription.
+include!(concat!(env!("OUT_DIR"), "/health_loop.rs"));
+
+/// Per-coordinator change tracking for C38: the last observed view and, for every key changed locally
+/// since this coordinator last re-synchronised, the step (operation / heartbeat / loop stage) that changed it.
+#[derive(Default)]
+pub struct Track {
+    pub node: u64,
+    pub tracked: BTreeMap<String, String>,
+    pub cause: BTreeMap<String, String>,
+    pub before: BTreeMap<String, String>,
+    pub judged: bool,
+    pub reverted: Vec<(String, String)>,
+    pub syncs_judged: u64,
+}
+
+impl Track {
+    /// attribute every difference between the last observed view and `v` to `cause`
+    pub fn attribute(&mut self, cause: &str, v: BTreeMap<String, String>) {
+        for (k, val) in &v {
+            if self.tracked.get(k) != Some(val) {
+                self.cause.insert(k.clone(), cause.to_string());
             }
         }
-        for wid in &failed {
-            c.handle_worker_failure(wid).await;
+        for k in self.tracked.keys() {
+            if !v.contains_key(k) {
+                self.cause.insert(k.clone(), cause.to_string());
+            }
         }
+        self.tracked = v;
     }
-    let _ = c.check_connector_health();
-    c.cleanup_completed_migrations(Duration::from_secs(3600));
-    if c.pending_rebalance {
-        let _ = c.reconcile_placements().await;
-        let _ = c.rebalance().await;
-    }
-    let _ = c.evaluate_scaling();
-    c.fire_scaling_webhook().await;
-    failed.into_iter().map(|w| w.0).collect()
+}
+
+thread_local! {
+    static HL_TRACK: std::cell::RefCell<Option<Track>> = const { std::cell::RefCell::new(None) };
+    static HL_SWEPT: std::cell::RefCell<Vec<String>> = const { std::cell::RefCell::new(Vec::new()) };
+}
+
+pub fn hl_swept(failed: &[WorkerId]) {
+    HL_SWEPT.with(|s| s.borrow_mut().extend(failed.iter().map(|w| w.0.clone())));
+}
+pub fn hl_before_sync(c: &Coordinator) {
+    HL_TRACK.with(|t| {
+        if let Some(t) = t.borrow_mut().as_mut() {
+            let v = view(c);
+            t.attribute("background", v.clone());
+            t.before = v;
+            t.judged = c.ha_role.is_writer();
+        }
+    });
+}
+pub fn hl_after_sync(c: &Coordinator) {
+    HL_TRACK.with(|t| {
+        if let Some(t) = t.borrow_mut().as_mut() {
+            let after = view(c);
+            if t.judged {
+                t.syncs_judged += 1;
+                let node = t.node;
+                // Signatures. The per-worker load bookkeeping (assigned_pipelines, pipelines_running) has ONE root
+                // cause whatever operation touched it (no handler replicates it, sync overwrites it), so its signature
+                // is the field alone and the operation goes into the detail; every other field is identified by
+                // field + the step that made the change. Appearing / disappearing entities are named as a whole.
+                let entity = |k: &str| k.split('.').next().unwrap_or("?").to_string();
+                for (k, b) in &t.before {
+                    let Some(by) = t.cause.get(k) else { continue };
+                    let kind = field_kind(k);
+                    match after.get(k) {
+                        Some(a) if a == b => {}
+                        Some(a) => {
+                            let sig = if kind == "worker.assigned_pipelines" || kind == "worker.pipelines_running" { kind.clone() } else { format!("{};by={}", kind, by) };
+                            t.reverted.push((sig, format!("node {} (leader): {} was set to {} by {} and sync_from_raft changed it back to {}", node, k, b, by, a)));
+                        }
+                        None => t.reverted.push((format!("{};removed;by={}", entity(k), by), format!("node {} (leader): {} = {} came from {} and sync_from_raft removed it", node, k, b, by))),
+                    }
+                }
+                for (k, a) in &after {
+                    if !t.before.contains_key(k) {
+                        if let Some(by) = t.cause.get(k) {
+                            t.reverted.push((format!("{};reappeared;by={}", entity(k), by), format!("node {} (leader): {} was removed by {} and sync_from_raft brought it back (= {})", node, k, by, a)));
+                        }
+                    }
+                }
+            }
+            t.cause.clear();
+            t.tracked = after;
+        }
+    });
+}
+pub fn hl_stage(stage: &str, c: &Coordinator) {
+    HL_TRACK.with(|t| {
+        if let Some(t) = t.borrow_mut().as_mut() {
+            t.attribute(stage, view(c));
+        }
+    });
+}
+
+/// One iteration of the real health loop; returns the workers the sweep marked unhealthy.
+pub async fn health_tick(coord: &SharedCoordinator) -> Vec<String> {
+    sync_clock();
+    HL_SWEPT.with(|s| s.borrow_mut().clear());
+    health_loop_iteration(coord).await;
+    HL_SWEPT.with(|s| s.borrow_mut().drain(..).collect())
 }
 
 fn spec(name: &str, pipes: &[(String, Option<String>, usize)]) -> Value {
@@ -310,8 +383,11 @@ pub fn run_c32(batch: &str, tape: &mut Tape, rep: &mut Report) {
 
 // ───────────────────────────── C33 ─────────────────────────────
 
-pub fn run_c33(_batch: &str, tape: &mut Tape, rep: &mut Report) {
+pub fn run_c33(batch: &str, tape: &mut Tape, rep: &mut Report) {
     let seed = tape.draw(u64::MAX);
+    // raft-health-loop: one coordinator in Raft mode; "Sweep" is one iteration of the real health loop
+    // (role update, sync_from_raft, sweep, failover ...) and only timing events are generated
+    let raft = batch == "raft-health-loop";
     let nworkers = tape.range(1, 4);
     let timeout_s = tape.range(3, 15);
     let nev = tape.range(6, 40);
@@ -333,7 +409,7 @@ pub fn run_c33(_batch: &str, tape: &mut Tape, rep: &mut Report) {
     let mut evs = vec![];
     for _ in 0..nev {
         let w = tape.range(1, nworkers);
-        let e = match tape.draw(14) {
+        let e = match tape.draw(if raft { 8 } else { 14 }) {
             0..=3 => Ev::Advance(match tape.draw(6) { 0 => 1, 1 => timeout_ms, 2 => timeout_ms - 1, 3 => timeout_ms + 1, 4 => tape.range(1, 20) * 500, _ => tape.range(1, 5) * 1000 }),
             4 | 5 => Ev::Heartbeat(w),
             6 | 7 => Ev::Sweep,
@@ -350,7 +426,23 @@ pub fn run_c33(_batch: &str, tape: &mut Tape, rep: &mut Report) {
         let mut v: Vec<(String, String, String)> = vec![];
         let mut log: Vec<String> = vec![];
         start_clock();
-        let (coord, routes) = standalone(timeout_s);
+        let mut raft_handle = None;
+        let (coord, routes) = if raft {
+            let rbac = Arc::new(RbacConfig::disabled());
+            let peers = vec![crate::cluster::addr(1)];
+            let b = varpulis_cluster::raft::bootstrap(1, &peers, None).await.expect("vsim harness: single-node raft bootstrap");
+            let mut c = Coordinator::with_raft(b.raft.clone(), b.shared_state.clone(), [(1u64, crate::cluster::addr(1))].into_iter().collect(), None);
+            c.heartbeat_timeout = Duration::from_secs(timeout_s);
+            let coord: SharedCoordinator = Arc::new(tokio::sync::RwLock::new(c));
+            let routes: Routes = varpulis_cluster::api::cluster_routes_with_raft(coord.clone(), rbac, b.raft.clone(), None).map(|r| warp::Reply::into_response(r)).boxed();
+            net.lock().unwrap().routes.insert(crate::cluster::host(1), routes.clone());
+            tokio::time::sleep(Duration::from_secs(5)).await; // election
+            sync_clock();
+            raft_handle = Some(b.raft);
+            (coord, routes)
+        } else {
+            standalone(timeout_s)
+        };
         let mut model: BTreeMap<u64, MW> = BTreeMap::new();
         let mut now = 0u64;
         let reg = |i: u64| json!({"worker_id": format!("w{}", i), "address": waddr(i), "api_key": "k", "capacity": {"cpu_cores": 4, "pipelines_running": 0, "max_pipelines": max_pipes}});
@@ -382,15 +474,15 @@ pub fn run_c33(_batch: &str, tape: &mut Tape, rep: &mut Report) {
                 Ev::Sweep => {
                     // the sweep of the health loop (without failover, which is exercised by Migrate/Drain below)
                     sync_clock();
-                    let marked: Vec<String> = { let mut c = coord.write().await; c.health_sweep().workers_marked_unhealthy.into_iter().map(|w| w.0).collect() };
-                    log.push(format!("#{} t={} sweep -> marked {:?}", k, now, marked));
+                    let marked: Vec<String> = if raft { health_tick(&coord).await } else { let mut c = coord.write().await; c.health_sweep().workers_marked_unhealthy.into_iter().map(|w| w.0).collect() };
+                    log.push(format!("#{} t={} {} -> marked {:?}", k, now, if raft { "health-loop iteration (raft mode): sweep" } else { "sweep" }, marked));
                     for (i, m) in model.iter_mut() {
                         if m.st != St::Ready { continue; }
                         let age = now - m.last_hb_ms;
                         let was_marked = marked.contains(&format!("w{}", i));
                         if age > timeout_ms {
                             m.st = St::Unhealthy;
-                            if !was_marked { v.push(("stale-worker-not-marked-unhealthy".into(), "-".into(), format!("t={}ms: w{} last heartbeat {}ms ago > timeout {}ms but the sweep left it Ready", now, i, age, timeout_ms))); }
+                            if !was_marked { v.push(("stale-worker-not-marked-unhealthy".into(), (if raft { "raft-health-loop" } else { "-" }).into(), format!("t={}ms: w{} last heartbeat {}ms ago > timeout {}ms but the sweep left it Ready", now, i, age, timeout_ms))); }
                         } else if was_marked {
                             let sig = if age == timeout_ms { "exactly-at-timeout" } else { "before-timeout" };
                             v.push(("worker-marked-unhealthy-too-early".into(), sig.into(), format!("t={}ms: w{} last heartbeat {}ms ago <= timeout {}ms but the sweep marked it unhealthy", now, i, age, timeout_ms)));
@@ -491,6 +583,8 @@ pub fn run_c33(_batch: &str, tape: &mut Tape, rep: &mut Report) {
                     if r.status / 100 == 2 { model.remove(&w); }
                 }
             }
+            // in Raft mode a missed marking is reported once, not again as a table difference
+            if raft && !v.is_empty() { break; }
             // after every event the coordinator's worker statuses equal the reference table
             let c = coord.read().await;
             for (i, m) in &model {
@@ -506,6 +600,7 @@ pub fn run_c33(_batch: &str, tape: &mut Tape, rep: &mut Report) {
             }
             if !v.is_empty() { break; }
         }
+        if let Some(r) = raft_handle { let _ = r.shutdown().await; }
         for l in log { v.push(("__log".into(), String::new(), l)); }
         v
     });
@@ -517,7 +612,7 @@ pub fn run_c33(_batch: &str, tape: &mut Tape, rep: &mut Report) {
     // log lines come after violations in the vector; order them for readability
     rep.ops += nev;
     rep.sim_ns = 0;
-    rep.nontrivial = rep.trace.iter().any(|l| l.contains("sweep -> marked [\"")) || rep.trace.iter().filter(|l| l.contains("deploy")).count() >= 2;
+    rep.nontrivial = (raft && rep.trace.iter().filter(|l| l.contains("sweep ->")).count() >= 2) || rep.trace.iter().any(|l| l.contains("sweep -> marked [\"")) || rep.trace.iter().filter(|l| l.contains("deploy")).count() >= 2;
 }
 
 // ───────────────────────────── C38 ─────────────────────────────
@@ -560,56 +655,14 @@ struct CNode {
     raft: Arc<varpulis_cluster::raft::VarpulisRaft>,
 }
 
-/// health tick with the sync step bracketed by two views
-async fn tick_observed(n: &CNode, reverted: &mut Vec<(String, String)>) {
+/// One iteration of the real health loop on node `n`, with the tracking context installed. false = it did
+/// not finish within 120 simulated seconds (the run is then ended without further judgement).
+async fn tick_node(n: &CNode, track: &mut Track) -> bool {
     sync_clock();
-    {
-        let mut c = n.coord.write().await;
-        c.update_raft_role();
-        let is_leader = c.ha_role.is_writer();
-        let before = view(&c);
-        c.sync_from_raft();
-        let after = view(&c);
-        if is_leader {
-            for (k, b) in &before {
-                match after.get(k) {
-                    Some(a) if a == b => {}
-                    Some(a) => reverted.push((field_kind(k), format!("node {} (leader): sync_from_raft changed {} from {} back to {}", n.id, k, b, a))),
-                    None => reverted.push((field_kind(k), format!("node {} (leader): sync_from_raft removed {} (was {})", n.id, k, b))),
-                }
-            }
-            for (k, a) in &after {
-                if !before.contains_key(k) {
-                    reverted.push((field_kind(k) + ";reappeared", format!("node {} (leader): sync_from_raft brought back {} = {}", n.id, k, a)));
-                }
-            }
-        }
-    }
-    // the rest of the loop body
-    let mut c = n.coord.write().await;
-    if !c.ha_role.is_writer() {
-        return;
-    }
-    let result = c.health_sweep();
-    let failed: Vec<WorkerId> = result.workers_marked_unhealthy.clone();
-    if !failed.is_empty() {
-        if let Some(handle) = c.raft_handle.as_ref().map(|h| h.raft.clone()) {
-            for wid in &failed {
-                let _ = handle.client_write(varpulis_cluster::raft::ClusterCommand::WorkerStatusChanged { id: wid.0.clone(), status: "unhealthy".to_string() }).await;
-            }
-        }
-        for wid in &failed {
-            c.handle_worker_failure(wid).await;
-        }
-    }
-    let _ = c.check_connector_health();
-    c.cleanup_completed_migrations(Duration::from_secs(3600));
-    if c.pending_rebalance {
-        let _ = c.reconcile_placements().await;
-        let _ = c.rebalance().await;
-    }
-    let _ = c.evaluate_scaling();
-    c.fire_scaling_webhook().await;
+    HL_TRACK.with(|t| *t.borrow_mut() = Some(std::mem::take(track)));
+    let r = tokio::time::timeout(Duration::from_secs(120), health_loop_iteration(&n.coord)).await;
+    *track = HL_TRACK.with(|t| t.borrow_mut().take()).expect("vsim harness: tracking context");
+    r.is_ok()
 }
 
 pub fn run_c38(batch: &str, tape: &mut Tape, rep: &mut Report) {
@@ -617,28 +670,10 @@ pub fn run_c38(batch: &str, tape: &mut Tape, rep: &mut Report) {
     let nnodes: u64 = if batch.starts_with("single") { 1 } else { 3 };
     let quiet = batch.ends_with("replicated-ops");
     let nworkers = tape.range(2, 3);
-    let nops = tape.range(4, 14);
+    let nops = tape.range(1, 10);
     #[derive(Clone, Debug)]
     enum Op { Deploy(u64), Teardown(u64), Migrate(u64, u64), Drain(u64), Rebalance, ConnCreate(u64), ConnUpdate(u64), ConnDelete(u64), WorkerDies(u64), WorkerBack(u64), IsolateLeader, Wait(u64) }
-    let mut ops = vec![];
-    for _ in 0..nops {
-        let w = tape.range(1, nworkers);
-        let o = match tape.draw(if quiet { 6 } else { 14 }) {
-            0 | 1 => Op::ConnCreate(tape.draw(3)),
-            2 => Op::ConnUpdate(tape.draw(3)),
-            3 => Op::ConnDelete(tape.draw(3)),
-            4 => Op::Teardown(tape.draw(2)),
-            5 => Op::Wait(tape.range(1, 12)),
-            6 | 7 | 8 => Op::Deploy(tape.draw(2)),
-            9 => Op::Migrate(tape.draw(2), w),
-            10 => Op::Drain(w),
-            11 => Op::Rebalance,
-            12 => if tape.chance(1, 2) { Op::WorkerDies(w) } else { Op::WorkerBack(w) },
-            _ => if nnodes > 1 { Op::IsolateLeader } else { Op::Wait(6) },
-        };
-        ops.push(o);
-    }
-    rep.config = format!("batch={} coordinators={} workers={} ops={:?}", batch, nnodes, nworkers, ops);
+    rep.config = format!("batch={} coordinators={} workers={} ops={}", batch, nnodes, nworkers, nops);
     rep.log(format!("config {}", rep.config));
     let mut seed_bytes = [0u8; 32];
     seed_bytes[..8].copy_from_slice(&seed.to_le_bytes());
@@ -648,7 +683,8 @@ pub fn run_c38(batch: &str, tape: &mut Tape, rep: &mut Report) {
     net.lock().unwrap().wcfg.max_latency_ms = 20;
     varpulis_cluster::verif_http::set_transport(Some(transport(net.clone())));
     let key = "admin-key".to_string();
-    let out: Result<(Vec<(String, String)>, Vec<String>), String> = rt.block_on(async {
+    struct Out { reverted: Vec<(String, String)>, log: Vec<String>, probes: Vec<&'static str>, ok_ops: u64, judged: u64, states: Vec<u64> }
+    let out: Result<Out, String> = rt.block_on(async {
         start_clock();
         let peers: Vec<String> = (1..=nnodes).map(crate::cluster::addr).collect();
         let peer_map: BTreeMap<u64, String> = (1..=nnodes).map(|i| (i, crate::cluster::addr(i))).collect();
@@ -656,9 +692,7 @@ pub fn run_c38(batch: &str, tape: &mut Tape, rep: &mut Report) {
         let mut nodes: Vec<CNode> = vec![];
         for id in 1..=nnodes {
             // the real bootstrap: MemStore, NetworkFactory, openraft config, initialise on node 1
-            if std::env::var("VSIM_DEBUG").is_ok() { eprintln!("bootstrapping node {}", id); }
             let b = varpulis_cluster::raft::bootstrap(id, &peers, rbac.any_admin_key()).await.map_err(|e| format!("bootstrap: {e}"))?;
-            if std::env::var("VSIM_DEBUG").is_ok() { eprintln!("bootstrapped node {}", id); }
             let mut c = Coordinator::with_raft(b.raft.clone(), b.shared_state.clone(), peer_map.clone(), rbac.any_admin_key());
             c.heartbeat_timeout = Duration::from_secs(15);
             let coord: SharedCoordinator = Arc::new(tokio::sync::RwLock::new(c));
@@ -666,175 +700,216 @@ pub fn run_c38(batch: &str, tape: &mut Tape, rep: &mut Report) {
             net.lock().unwrap().routes.insert(crate::cluster::host(id), routes.clone());
             nodes.push(CNode { id, coord, routes, raft: b.raft });
         }
-        if std::env::var("VSIM_DEBUG").is_ok() { eprintln!("bootstrapped"); }
         tokio::time::sleep(Duration::from_secs(5)).await; // leader election
-        if std::env::var("VSIM_DEBUG").is_ok() { eprintln!("after election sleep"); }
+        let t0 = tokio::time::Instant::now();
+        let now_s = move || 5 + t0.elapsed().as_secs();
+        // a request is its own task (as under a real server); the caller waits for the reply, at most 120 simulated seconds
         let call = |routes: Routes, method: &'static str, path: String, body: Option<Value>, key: String| async move {
             let mut rq = warp::test::request().method(method).path(&path).header("x-api-key", key);
             if let Some(b) = &body { rq = rq.json(b); }
             sync_clock();
-            let r = tokio::spawn(async move { rq.reply(&routes).await }).await.expect("request task");
-            Resp { status: r.status().as_u16(), json: serde_json::from_slice(r.body()).unwrap_or(Value::Null) }
+            let h = tokio::spawn(async move { rq.reply(&routes).await });
+            match tokio::time::timeout(Duration::from_secs(120), h).await {
+                Ok(r) => { let r = r.expect("request task"); Some(Resp { status: r.status().as_u16(), json: serde_json::from_slice(r.body()).unwrap_or(Value::Null) }) }
+                Err(_) => None,
+            }
         };
-        let mut log = vec![];
+        let mut log: Vec<String> = vec![];
+        let mut probes: Vec<&'static str> = vec![];
+        let mut tracks: Vec<Track> = nodes.iter().map(|n| Track { node: n.id, ..Default::default() }).collect();
+        // attribute every view difference on every coordinator to the step that just finished
+        macro_rules! attribute {
+            ($cause:expr) => {
+                for (i, n) in nodes.iter().enumerate() {
+                    let v = view(&*n.coord.read().await);
+                    tracks[i].attribute($cause, v);
+                }
+            };
+        }
+        attribute!("bootstrap");
+        for t in tracks.iter_mut() { t.cause.clear(); }
+        let reg_body = |i: u64| json!({"worker_id": format!("w{}", i), "address": waddr(i), "api_key": "k", "capacity": {"cpu_cores": 4, "pipelines_running": 0, "max_pipelines": 10}});
         // workers register at their home coordinator (any node; followers forward to the leader)
         for i in 1..=nworkers {
             net.lock().unwrap().workers.insert(whost(i), SimWorker { up: true, ..Default::default() });
             let home = &nodes[((i - 1) % nnodes) as usize];
-            let r = call(home.routes.clone(), "POST", "/api/v1/cluster/workers/register".into(), Some(json!({"worker_id": format!("w{}", i), "address": waddr(i), "api_key": "k", "capacity": {"cpu_cores": 4, "pipelines_running": 0, "max_pipelines": 10}})), key.clone()).await;
-            log.push(format!("register w{} at node {} -> {}", i, home.id, r.status));
-            if std::env::var("VSIM_DEBUG").is_ok() { eprintln!("{}", log.last().unwrap()); }
+            let r = call(home.routes.clone(), "POST", "/api/v1/cluster/workers/register".into(), Some(reg_body(i)), key.clone()).await;
+            log.push(format!("register w{} at node {} -> {}", i, home.id, r.map(|r| r.status).unwrap_or(0)));
+            attribute!("register");
         }
-        let groups: Arc<Mutex<BTreeMap<u64, (String, String)>>> = Arc::new(Mutex::new(BTreeMap::new()));
-        let shared_log: Arc<Mutex<Vec<String>>> = Arc::new(Mutex::new(vec![]));
-        let shared_rev: Arc<Mutex<Vec<(String, String)>>> = Arc::new(Mutex::new(vec![]));
-        let nodes = Arc::new(nodes);
-        let mut t_s = 5u64;
-        let mut next_tick = 10u64;
-        let mut next_hb = 6u64;
+        let first_leader = nodes[0].raft.metrics().borrow().current_leader;
+        let mut groups: BTreeMap<u64, (String, String)> = BTreeMap::new();
+        let mut issued = 0u64;
+        let mut conns: BTreeSet<u64> = BTreeSet::new();
+        let mut gone: BTreeSet<u64> = BTreeSet::new(); // workers drained away or dead
         let mut gen = 0u64;
-        // one simulated second at a time: heartbeats every 5 s, the health loop of every node every 5 s (one
-        // iteration at a time per node, as in the real loop), one operation every 2 s. Operations and ticks are their
-        // own tasks: one that blocks (e.g. a write on a cut-off stale leader) must not stop time or the healing of faults.
-        let mut pending: Vec<Op> = ops.clone();
-        pending.reverse();
+        let mut ok_ops = 0u64;
         let mut wait_until = 0u64;
-        let mut heal_at: Option<u64> = None;
-        let mut tick_tasks: BTreeMap<u64, tokio::task::JoinHandle<()>> = BTreeMap::new();
-        let mut op_tasks: Vec<tokio::task::JoinHandle<()>> = vec![];
-        let end = 5 + (nops * 2) + 45;
-        while t_s < end {
+        let mut blocked = false;
+        let end = 5 + nops * 5 + 50;
+        let mut t_s = 5u64;
+        // One simulated second at a time, strictly one step at a time so that every change of a coordinator's view
+        // has exactly one cause: heartbeats at t = 1 (mod 5), the health loop of every coordinator at t = 0 (mod 5),
+        // one operation at t = 3 (mod 5). Healing of a partition is a timer of its own.
+        while t_s < end && !blocked {
             tokio::time::sleep(Duration::from_secs(1)).await;
             t_s += 1;
             sync_clock();
-            if let Some(h) = heal_at {
-                if t_s >= h {
-                    net.lock().unwrap().isolated.clear();
-                    net.lock().unwrap().fault("heal");
-                    shared_log.lock().unwrap().push(format!("t={}s partition healed", t_s));
-                    heal_at = None;
-                }
-            }
-            if t_s >= next_hb {
-                next_hb += 5;
+            if t_s % 5 == 1 {
                 let ws: Vec<(u64, usize)> = (1..=nworkers).filter_map(|i| net.lock().unwrap().workers.get(&whost(i)).filter(|w| w.up).map(|w| (i, w.pipelines.len()))).collect();
                 for (i, n) in ws {
                     let routes = nodes[((i - 1) % nnodes) as usize].routes.clone();
-                    let key = key.clone();
-                    op_tasks.push(tokio::spawn(async move {
-                        let _ = call(routes, "POST", format!("/api/v1/cluster/workers/w{}/heartbeat", i), Some(json!({"events_processed": 0, "pipelines_running": n})), key).await;
-                    }));
+                    if call(routes, "POST", format!("/api/v1/cluster/workers/w{}/heartbeat", i), Some(json!({"events_processed": 0, "pipelines_running": n})), key.clone()).await.is_none() { blocked = true; probes.push("step-blocked"); break; }
+                    attribute!("heartbeat");
                 }
             }
-            if t_s >= next_tick {
-                next_tick += 5;
-                for idx in 0..nodes.len() {
-                    let id = nodes[idx].id;
-                    if tick_tasks.get(&id).map(|h| !h.is_finished()).unwrap_or(false) {
-                        continue; // the previous iteration of this node's loop is still running
+            if t_s % 5 == 0 && t_s >= 10 {
+                for i in 0..nodes.len() {
+                    if !tick_node(&nodes[i], &mut tracks[i]).await { blocked = true; probes.push("step-blocked"); break; }
+                    // a tick of one coordinator does not touch another coordinator's view; if it ever did, name it
+                    attribute!("tick-of-another-coordinator");
+                }
+            }
+            if t_s % 5 == 3 && t_s >= wait_until {
+                if issued >= nops { continue; }
+                issued += 1;
+                // the next operation is drawn against what exists now (mostly valid targets, sometimes not)
+                let w = tape.range(1, nworkers);
+                let slot = if !groups.is_empty() && tape.chance(3, 4) { *groups.keys().nth(tape.draw(groups.len() as u64) as usize).unwrap() } else { tape.draw(2) };
+                let ck = if !conns.is_empty() && tape.chance(3, 4) { *conns.iter().nth(tape.draw(conns.len() as u64) as usize).unwrap() } else { tape.draw(3) };
+                let op = if quiet {
+                    match tape.draw(6) { 0 | 1 => Op::ConnCreate(tape.draw(3)), 2 => Op::ConnUpdate(ck), 3 => Op::ConnDelete(ck), 4 => Op::Teardown(slot), _ => Op::Wait(tape.range(1, 2)) }
+                } else if groups.is_empty() && tape.chance(1, 2) {
+                    Op::Deploy(tape.draw(2))
+                } else {
+                    match tape.draw(14) {
+                        0 => Op::ConnCreate(tape.draw(3)),
+                        1 => Op::ConnUpdate(ck),
+                        2 => Op::ConnDelete(ck),
+                        3 => Op::Teardown(slot),
+                        4 => Op::Wait(tape.range(1, 3)),
+                        5 | 6 => Op::Deploy(tape.draw(2)),
+                        7 | 8 => Op::Migrate(slot, w),
+                        9 => Op::Drain(w),
+                        10 => Op::Rebalance,
+                        11 => Op::WorkerDies(w),
+                        12 => Op::WorkerBack(if !gone.is_empty() && tape.chance(3, 4) { *gone.iter().nth(tape.draw(gone.len() as u64) as usize).unwrap() } else { w }),
+                        _ => if nnodes > 1 { Op::IsolateLeader } else { Op::Rebalance },
                     }
-                    let (nodes, shared_rev, shared_log) = (nodes.clone(), shared_rev.clone(), shared_log.clone());
-                    tick_tasks.insert(id, tokio::spawn(async move {
-                        let mut rev = vec![];
-                        tick_observed(&nodes[idx], &mut rev).await;
-                        for (k, d) in rev {
-                            shared_log.lock().unwrap().push(format!("t={}s {}", t_s, d));
-                            shared_rev.lock().unwrap().push((k, d));
-                        }
-                    }));
-                }
-            }
-            if t_s % 2 == 0 && t_s >= wait_until {
-                if let Some(op) = pending.pop() {
-                    gen += 1;
-                    let tidx = (gen % nnodes) as usize;
-                    match &op {
-                        Op::WorkerDies(w) => {
-                            if let Some(x) = net.lock().unwrap().workers.get_mut(&whost(*w)) { x.up = false; x.pipelines.clear(); }
-                            net.lock().unwrap().fault("worker-died");
-                            shared_log.lock().unwrap().push(format!("t={}s worker w{} dies", t_s, w));
-                            continue;
-                        }
-                        Op::IsolateLeader => {
-                            let leader = nodes[0].raft.metrics().borrow().current_leader.unwrap_or(1);
+                };
+                let tgt = tape.draw(nnodes);
+                gen += 1;
+                let target = &nodes[tgt as usize];
+                let leader_now = nodes[0].raft.metrics().borrow().current_leader;
+                if Some(target.id) != leader_now { probes.push("op-sent-to-follower"); }
+                let res: Option<u16> = match &op {
+                    Op::WorkerDies(w) => {
+                        if let Some(x) = net.lock().unwrap().workers.get_mut(&whost(*w)) { x.up = false; x.pipelines.clear(); }
+                        gone.insert(*w);
+                        net.lock().unwrap().fault("worker-died");
+                        log.push(format!("t={}s worker w{} dies", now_s(), w));
+                        continue;
+                    }
+                    Op::IsolateLeader => {
+                        let leader = leader_now.unwrap_or(1);
+                        {
                             let mut g = net.lock().unwrap();
                             g.isolated.clear();
                             g.isolated.insert(leader);
                             g.fault("partition-leader");
-                            heal_at = Some(t_s + 8);
-                            shared_log.lock().unwrap().push(format!("t={}s leader node {} cut off for 8 s", t_s, leader));
-                            continue;
                         }
-                        Op::Wait(sec) => { wait_until = t_s + sec; continue; }
-                        _ => {}
+                        let net2 = net.clone();
+                        tokio::spawn(async move {
+                            tokio::time::sleep(Duration::from_secs(8)).await;
+                            let mut g = net2.lock().unwrap();
+                            g.isolated.clear();
+                            g.fault("heal");
+                        });
+                        log.push(format!("t={}s leader node {} cut off from the other coordinators for 8 s", now_s(), leader));
+                        continue;
                     }
-                    let (nodes, groups, net, key, shared_log) = (nodes.clone(), groups.clone(), net.clone(), key.clone(), shared_log.clone());
-                    op_tasks.push(tokio::spawn(async move {
-                        let target = &nodes[tidx];
-                        let res = match &op {
-                            Op::Deploy(slot) => {
-                                let pipes = vec![(format!("p{}a_{}", slot, gen), None, 1usize), (format!("p{}b_{}", slot, gen), None, 1)];
-                                let r = call(target.routes.clone(), "POST", "/api/v1/cluster/pipeline-groups".into(), Some(spec(&format!("g{}", slot), &pipes)), key.clone()).await;
-                                if r.status / 100 == 2 { if let Some(id) = r.json["id"].as_str() { groups.lock().unwrap().insert(*slot, (id.to_string(), format!("p{}a_{}", slot, gen))); } }
-                                r.status
-                            }
-                            Op::Teardown(slot) => { let g = groups.lock().unwrap().remove(slot); match g { Some((g, _)) => call(target.routes.clone(), "DELETE", format!("/api/v1/cluster/pipeline-groups/{}", g), None, key.clone()).await.status, None => 0 } }
-                            Op::Migrate(slot, w) => { let g = groups.lock().unwrap().get(slot).cloned(); match g { Some((g, p)) => call(target.routes.clone(), "POST", format!("/api/v1/cluster/pipelines/{}/{}/migrate", g, p), Some(json!({"target_worker_id": format!("w{}", w)})), key.clone()).await.status, None => 0 } }
-                            Op::Drain(w) => call(target.routes.clone(), "POST", format!("/api/v1/cluster/workers/w{}/drain", w), Some(json!({})), key.clone()).await.status,
-                            Op::Rebalance => call(target.routes.clone(), "POST", "/api/v1/cluster/rebalance".into(), None, key.clone()).await.status,
-                            Op::ConnCreate(k) => call(target.routes.clone(), "POST", "/api/v1/cluster/connectors".into(), Some(json!({"name": format!("conn{}", k), "connector_type": "mqtt", "params": {"host": format!("h{}", gen)}})), key.clone()).await.status,
-                            Op::ConnUpdate(k) => call(target.routes.clone(), "PUT", format!("/api/v1/cluster/connectors/conn{}", k), Some(json!({"name": format!("conn{}", k), "connector_type": "mqtt", "params": {"host": format!("u{}", gen)}})), key.clone()).await.status,
-                            Op::ConnDelete(k) => call(target.routes.clone(), "DELETE", format!("/api/v1/cluster/connectors/conn{}", k), None, key.clone()).await.status,
-                            Op::WorkerBack(w) => {
-                                let was_down = net.lock().unwrap().workers.get(&whost(*w)).map(|x| !x.up).unwrap_or(false);
-                                if was_down {
-                                    net.lock().unwrap().workers.get_mut(&whost(*w)).unwrap().up = true;
-                                    net.lock().unwrap().fault("worker-restarted");
-                                    let home = &nodes[((w - 1) % nodes.len() as u64) as usize];
-                                    call(home.routes.clone(), "POST", "/api/v1/cluster/workers/register".into(), Some(json!({"worker_id": format!("w{}", w), "address": waddr(*w), "api_key": "k", "capacity": {"cpu_cores": 4, "pipelines_running": 0, "max_pipelines": 10}})), key.clone()).await.status
-                                } else { 0 }
-                            }
-                            _ => 0,
-                        };
-                        shared_log.lock().unwrap().push(format!("op #{} {:?} at node {} -> {}", gen, op, target.id, res));
-                    }));
+                    Op::Wait(n) => { wait_until = t_s + n * 5; log.push(format!("t={}s (no operation for {} rounds)", now_s(), n)); continue; }
+                    Op::Deploy(slot) => {
+                        let pipes = vec![(format!("p{}a_{}", slot, gen), None, 1usize), (format!("p{}b_{}", slot, gen), None, 1)];
+                        let r = call(target.routes.clone(), "POST", "/api/v1/cluster/pipeline-groups".into(), Some(spec(&format!("g{}", slot), &pipes)), key.clone()).await;
+                        if let Some(r) = &r { if r.status / 100 == 2 { if let Some(id) = r.json["id"].as_str() { groups.insert(*slot, (id.to_string(), format!("p{}a_{}", slot, gen))); } } }
+                        r.map(|r| r.status)
+                    }
+                    Op::Teardown(slot) => match groups.remove(slot) { Some((g, _)) => call(target.routes.clone(), "DELETE", format!("/api/v1/cluster/pipeline-groups/{}", g), None, key.clone()).await.map(|r| r.status), None => Some(0) },
+                    Op::Migrate(slot, w) => match groups.get(slot).cloned() { Some((g, p)) => call(target.routes.clone(), "POST", format!("/api/v1/cluster/pipelines/{}/{}/migrate", g, p), Some(json!({"target_worker_id": format!("w{}", w)})), key.clone()).await.map(|r| r.status), None => Some(0) },
+                    Op::Drain(w) => { let r = call(target.routes.clone(), "POST", format!("/api/v1/cluster/workers/w{}/drain", w), Some(json!({})), key.clone()).await.map(|r| r.status); if r == Some(200) { gone.insert(*w); } r }
+                    Op::Rebalance => call(target.routes.clone(), "POST", "/api/v1/cluster/rebalance".into(), None, key.clone()).await.map(|r| r.status),
+                    Op::ConnCreate(k) => { let r = call(target.routes.clone(), "POST", "/api/v1/cluster/connectors".into(), Some(json!({"name": format!("conn{}", k), "connector_type": "mqtt", "params": {"host": format!("h{}", gen)}})), key.clone()).await.map(|r| r.status); if r.map(|s| s / 100 == 2).unwrap_or(false) { conns.insert(*k); } r }
+                    Op::ConnUpdate(k) => call(target.routes.clone(), "PUT", format!("/api/v1/cluster/connectors/conn{}", k), Some(json!({"name": format!("conn{}", k), "connector_type": "mqtt", "params": {"host": format!("u{}", gen)}})), key.clone()).await.map(|r| r.status),
+                    Op::ConnDelete(k) => { let r = call(target.routes.clone(), "DELETE", format!("/api/v1/cluster/connectors/conn{}", k), None, key.clone()).await.map(|r| r.status); if r.map(|s| s / 100 == 2).unwrap_or(false) { conns.remove(k); } r }
+                    Op::WorkerBack(w) => {
+                        // a dead worker restarts (empty) and registers again; a drained-away or live one simply registers again
+                        let was_down = net.lock().unwrap().workers.get(&whost(*w)).map(|x| !x.up).unwrap_or(false);
+                        if was_down || gone.contains(w) || tape.chance(1, 4) {
+                            gone.remove(w);
+                            if was_down { net.lock().unwrap().workers.get_mut(&whost(*w)).unwrap().up = true; }
+                            net.lock().unwrap().fault(if was_down { "worker-restarted" } else { "worker-re-registered" });
+                            let home = &nodes[((w - 1) % nnodes) as usize];
+                            call(home.routes.clone(), "POST", "/api/v1/cluster/workers/register".into(), Some(reg_body(*w)), key.clone()).await.map(|r| r.status)
+                        } else { Some(0) }
+                    }
+                };
+                let cause = match &op { Op::Deploy(_) => "deploy", Op::Teardown(_) => "teardown", Op::Migrate(..) => "manual-migrate", Op::Drain(_) => "drain", Op::Rebalance => "rebalance-request", Op::ConnCreate(_) => "connector-create", Op::ConnUpdate(_) => "connector-update", Op::ConnDelete(_) => "connector-delete", Op::WorkerBack(_) => "worker-re-register", _ => "other" };
+                match res {
+                    None => { blocked = true; probes.push("step-blocked"); log.push(format!("t={}s op #{} {:?} at node {} -> no reply within 120 s; run ended", now_s(), gen, op, target.id)); }
+                    Some(st) => {
+                        if st / 100 == 2 { ok_ops += 1; }
+                        log.push(format!("t={}s op #{} {:?} at node {} -> {}", now_s(), gen, op, target.id, st));
+                        attribute!(cause);
+                    }
                 }
             }
         }
-        for t in op_tasks { t.abort(); }
-        for (_, t) in tick_tasks { t.abort(); }
-        let mut log: Vec<String> = log;
-        log.extend(shared_log.lock().unwrap().drain(..));
-        let mut reverted: Vec<(String, String)> = shared_rev.lock().unwrap().drain(..).collect();
-        let _ = &mut reverted;
+        let mut reverted: Vec<(String, String)> = vec![];
+        let mut judged = 0;
+        for t in tracks.iter_mut() {
+            judged += t.syncs_judged;
+            reverted.append(&mut t.reverted);
+        }
+        {
+            // one line per distinct (field, step) pair: the heartbeat-driven ones recur at every tick
+            let mut seen = BTreeSet::new();
+            for (sig, d) in &reverted {
+                let key = format!("{}|{}", sig, d.split(" was ").next().unwrap_or(""));
+                if seen.insert(key) { log.push(d.clone()); }
+            }
+        }
+        let last_leader = nodes[0].raft.metrics().borrow().current_leader;
+        if last_leader != first_leader { probes.push("leader-changed"); }
         // quiescence: a follower's view equals the leader's
-        let mut follower_diffs = vec![];
-        if nnodes > 1 {
+        let mut states = vec![];
+        if nnodes > 1 && !blocked {
             let leader_id = nodes.iter().find_map(|n| { let m = n.raft.metrics().borrow().clone(); if m.current_leader == Some(m.id) { Some(m.id) } else { None } });
             if let Some(l) = leader_id {
                 let lv = view(&*nodes[(l - 1) as usize].coord.read().await);
+                states.push(vsim_core::rng::hash_str(&format!("{:?}", lv.keys().map(|k| field_kind(k)).collect::<BTreeSet<_>>())));
                 for n in nodes.iter() {
                     if n.id == l { continue; }
                     let fv = view(&*n.coord.read().await);
                     for (k, a) in &lv {
                         if k.ends_with("pipelines_running") { continue; }
                         if fv.get(k) != Some(a) {
-                            follower_diffs.push((field_kind(k), format!("at quiescence node {} (follower) shows {} = {:?}, leader node {} shows {}", n.id, k, fv.get(k), l, a)));
+                            reverted.push((format!("FOLLOWER|{}", field_kind(k)), format!("at quiescence node {} (follower) shows {} = {:?}, leader node {} shows {}", n.id, k, fv.get(k), l, a)));
                         }
                     }
                     for k in fv.keys() {
                         if !lv.contains_key(k) {
-                            follower_diffs.push((field_kind(k), format!("at quiescence node {} (follower) shows {} which the leader does not have", n.id, k)));
+                            reverted.push((format!("FOLLOWER|{}", field_kind(k)), format!("at quiescence node {} (follower) shows {} which the leader does not have", n.id, k)));
                         }
                     }
                 }
+                probes.push("follower-views-compared");
             }
         }
         for n in nodes.iter() {
             let _ = n.raft.shutdown().await;
         }
-        for (k, d) in follower_diffs { reverted.push((format!("FOLLOWER|{}", k), d)); }
-        Ok((reverted, log))
+        Ok(Out { reverted, log, probes, ok_ops, judged, states })
     });
     varpulis_cluster::verif_http::set_transport(None);
     drop(rt);
@@ -842,15 +917,19 @@ pub fn run_c38(batch: &str, tape: &mut Tape, rep: &mut Report) {
     for (k, v) in &g.faults { *rep.faults.entry(k.clone()).or_insert(0) += v; }
     match out {
         Err(e) => rep.violate("harness-cluster-setup", "-", e),
-        Ok((reverted, log)) => {
-            for l in log { rep.log(l); }
-            rep.nontrivial = rep.trace.iter().filter(|l| l.contains(" op ") && (l.ends_with("-> 200") || l.ends_with("-> 201") || l.ends_with("-> 202"))).count() >= 2;
+        Ok(o) => {
+            for l in o.log { rep.log(l); }
+            for p in o.probes { rep.probe(p); }
+            for s in o.states { rep.state(s); }
+            *rep.probes.entry("syncs-judged-on-a-leader".into()).or_insert(0) += o.judged;
+            rep.nontrivial = o.ok_ops >= 2 && o.judged >= 2;
             let mut seen = BTreeSet::new();
-            for (kind, detail) in reverted {
+            for (kind, detail) in o.reverted {
                 if let Some(k) = kind.strip_prefix("FOLLOWER|") {
-                    if seen.insert(format!("F{}", k)) { rep.violate("follower-view-differs-from-leader", &format!("{};{}", k, batch), detail); }
+                    if seen.insert(format!("F{}", k)) { rep.violate("follower-view-differs-from-leader", k, detail); }
                 } else if seen.insert(kind.clone()) {
-                    rep.violate("sync-from-raft-reverted-a-change", &format!("{};{}", kind, batch), detail);
+                    rep.state(vsim_core::rng::hash_str(&kind));
+                    rep.violate("sync-from-raft-reverted-a-change", &kind, detail);
                 }
             }
         }
